@@ -38,7 +38,72 @@ def fmtGet (m : RMap) (k : Key) : String :=
 def arbKey (era : Nat) (i : Nat) (a : Arb) : Key :=
   (payArb era 0 (fun _ => 0) i a).1
 
+/-- the entries of a round reward in the fixed order destroy, CRC address, arbiters, candidates -/
+def entryOrder (era : Nat) (arbs : List Arb) (nc : Nat) (m : RMap) : List Key :=
+  let cand : List Key := [Key.destroy, Key.crc] ++ ((List.range arbs.length).zip arbs).map (fun (i, a) => arbKey era i a) ++
+    (List.range nc).map Key.cand
+  (cand.foldl (fun acc k => if acc.contains k then acc else acc ++ [k]) []).filter (fun k => (m.get k).isSome)
+
+def sumMap (m : RMap) : Int := m.foldl (fun a e => a + toInt e.2) 0
+
+/-- the steps of a `book` op -/
+def bookSteps (dist : Fixed64 → Option (RMap × Fixed64)) (voting : Bool) :
+    Nat → List String → Book → List String → Option (Book × List String × List String)
+  | 0, rest, s, acc => some (s, acc.reverse, rest)
+  | n + 1, kind :: fee :: rest, s, acc =>
+    match int? fee with
+    | none => none
+    | some fee =>
+      let b := ofInt (goInt64' (Float.ceil (f64 (ofInt fee + ofInt 152207001) * 0.35)))
+      if kind == "a" then
+        let s' := accumulate voting b s
+        bookSteps dist voting n rest s' (("a:" ++ toString (toInt s'.acc)) :: acc)
+      else
+        match clearing dist (kind == "s") b s with
+        | none => bookSteps dist voting n rest s ("c:err" :: acc)
+        | some s' =>
+          bookSteps dist voting n rest s'
+            (("c:" ++ toString (toInt s'.acc) ++ " " ++ toString (toInt s'.change) ++ " " ++ toString (sumMap s'.rr) ++ " " ++
+              toString s'.rr.length) :: acc)
+  | _, _, _, _ => none
+
+def stepBook : List String → String
+  | era :: pow :: cfgCRC :: cfgNormal :: total :: na :: rest =>
+    match nat? era, nat? cfgCRC, nat? cfgNormal, int? total, nat? na with
+    | some era, some cfgCRC, some cfgNormal, some total, some na =>
+      match parseArbs na rest with
+      | some (arbs, nc :: crest) =>
+        match nat? nc with
+        | some nc =>
+          let cvs := (crest.take nc).filterMap (fun s => (int? s).map ofInt)
+          match crest.drop nc with
+          | voting :: acc0 :: nsteps :: srest =>
+            match int? acc0, nat? nsteps with
+            | some acc0, some nsteps =>
+              let dist : Fixed64 → Option (RMap × Fixed64) := fun pool =>
+                let inp : Input := ⟨era, pow == "1", cfgCRC, cfgNormal, pool, arbs, cvs⟩
+                distribute (floatIbc pool (arbitersCount inp)) (floatShare pool (ofInt total)) inp
+              match bookSteps dist (voting == "1") nsteps srest ⟨ofInt acc0, [], 0, false⟩ [] with
+              | some (s, outs, [cbk, cbdelta]) =>
+                match int? cbk, int? cbdelta with
+                | some cbk, some cbdelta =>
+                  let order := entryOrder era arbs nc s.rr
+                  let cbOuts : List (Key × Fixed64) := ((List.range order.length).zip order).map (fun (j, k) =>
+                    let k' := if cbk == -2 && j + 1 == order.length && j > 0 then order.headD k else k
+                    let v := (s.rr.get k').getD 0
+                    (k', if (j : Int) == cbk then v + ofInt cbdelta else v))
+                  " ; ".intercalate (outs ++ [if coinbaseRoundCheck s.rr cbOuts then "cb:ok" else "cb:err"])
+                | _, _ => "bad-op"
+              | _ => "bad-op"
+            | _, _ => "bad-op"
+          | _ => "bad-op"
+        | none => "bad-op"
+      | _ => "bad-op"
+    | _, _, _, _, _ => "bad-op"
+  | _ => "bad-op"
+
 def stepC27 : List String → String
+  | "book" :: rest => stepBook rest
   | "dist" :: era :: pow :: cfgCRC :: cfgNormal :: reward :: total :: na :: rest =>
     match nat? era, nat? cfgCRC, nat? cfgNormal, int? reward, int? total, nat? na with
     | some era, some cfgCRC, some cfgNormal, some reward, some total, some na =>
